@@ -11,6 +11,11 @@ Decides writer/reader agreement:
    test and the name-prefix test only.
  * C24.imports: the import idiom of the exporter (import M / alias = sys.modules[M] / from M import)
    is what normalize_sut_references handles.
+  A parsed function is kept iff it has statements (a tally of dispositions must name every ADMITTED*).
+ * C24.statements: the exporter demotes unused assignments to bare expression statements of any
+   shape, so the parser's arm for expression statements must refuse none.
+ * C24.name-positions: every CST visitor of the deserializer that treats Names as references
+   exempts keywords of call arguments and attribute names, as its siblings do.
 Round trip of ordinary statements (call resolution against the test cluster) is not decided.
 """
 
